@@ -31,8 +31,22 @@ class GC(Generic[TC]):
     pass
 
 
-LIT_VALUES = {"i0": 0, "i1": 1, "bF": False, "bT": True, "s_a": "a", "s_b": "b", "none": None, "s_1": "1"}
-LEAVES = {"int": int, "str": str, "bool": bool, "bytes": bytes, "None": None, "Any": Any, "G": G, "GB": GB, "GC": GC}
+def _same_named():
+    """two distinct classes / enums that print alike (made by one factory: same name, same module, same qualname)"""
+    import enum
+
+    class X:
+        pass
+
+    class Color(enum.Enum):
+        RED = 1
+    return X, Color
+
+
+X1, Color1 = _same_named()
+X2, Color2 = _same_named()
+LIT_VALUES = {"ex1": Color1.RED, "ex2": Color2.RED, "i0": 0, "i1": 1, "bF": False, "bT": True, "s_a": "a", "s_b": "b", "none": None, "s_1": "1"}
+LEAVES = {"int": int, "str": str, "bool": bool, "bytes": bytes, "None": None, "Any": Any, "G": G, "GB": GB, "GC": GC, "X1": X1, "X2": X2}
 
 
 def hint(h: dict) -> Any:
